@@ -166,16 +166,26 @@ class C01(object):
                          'models.judged.with_capitalists_in_several_regions_of_a_zone',
                          'models.judged.with_three_asset_portfolio',
                          'models.judged.with_holder_declaring_its_own_lagged_deposits',
-                         'models.judged.with_households_buying_in_another_regions_market')
+                         'models.judged.with_households_buying_in_another_regions_market',
+                         'retry_after_refusal.judged')
     which = ('zone', 'ledger')
 
     def n_cases(self, tier):
         return 32 if tier == 'quick' else 1500
 
     def make_case(self, rng, idx, tier):
+        if idx % 16 == 13:
+            # a cross-currency flow refused for want of an external sector; the caller adds one and builds again
+            return {'kind': 'retry_after_refusal', 'gift': rng.choice([2.5, 4.0, 1.0]), 'inc': rng.random() < 0.5,
+                    'domestic_first': rng.random() < 0.5, 'attempts': rng.choice([1, 1, 2]),
+                    'xr_cad': [rng.choice([1.0, 1.25, 0.8, 2.0]) for _ in range(6)],
+                    'xr_usd': [rng.choice([1.0, 0.5, 1.6, 2.5]) for _ in range(6)]}
         return gen_case(rng, idx, tier)
 
     def run_case(self, case):
+        if case.get('kind') == 'retry_after_refusal':
+            from vf.props import c07
+            return c07.PROP.run_retry_after_refusal(case)
         return solve_and_judge(case, self.which)
 
 
